@@ -24,12 +24,15 @@ RULE = ("Hypothesis draws a type program (including the types converted by std_t
         "coerce in {off, True, custom coercer returning wrong-typed values / raising}) and 4-10 Python data per type: valid "
         "data with 1-2 hostile atoms planted (nan, inf, -0.0, 10**400, bytes, tuple, set, str/int/float/dict/list subclasses, "
         "dicts with int/None/tuple/bytes/mixed keys, unhashable / hostile-__eq__ objects, ...), mutants, coercion-bait strings, "
-        "fully random hostile trees, random JSON and deep nestings (depth 50..2500).  Oracle: outcome is a return or ValidationError; "
+        "fully random hostile trees, random JSON and deep nestings (depth 50..2500); 12 % of the cases take their program and data from C13's union "
+        "generator (overlapping unions, discriminated unions with tagged data) with hostile atoms / bait planted; integers beyond the int <-> str "
+        "conversion limit (10**5000) and Set[Any] are included.  Oracle: outcome is a return or ValidationError; "
         "errors computable, json.dumps-able, str() works; type-exact snapshot of the input unchanged; vars() of generated classes "
         "unchanged.  Non-trivial: the datum has the JSON class the root type expects (reaches below the root method) and contains "
         ">= 1 hostile atom, planted mutation or coercion-bait.  Distinct = hash(type shape, datum shape, option set).")
 ASSUMPTIONS = [
-    "exceptions raised by generated user callables (custom coercer) are of a marker class and exempt, as the statement says",
+    "exceptions raised by generated user callables (custom coercer) are of a marker class and exempt, as the statement says; so is any exception whose "
+    "innermost frame is code of the generated module itself (a default factory, a converter, __post_init__)",
     "a compile-time TypeError raised by apischema itself with an explicit message would be a generator bug (none observed)",
 ]
 BUDGET = {"quick": 900, "thorough": 16000}
@@ -116,7 +119,22 @@ def data_fn(draw, prog, t, opts):
 @st.composite
 def strategy_(draw, tier):
     cfg = {"max_depth": 3 if tier == "quick" else 4, "generics": True, "std": True, "std_multi": True, "float_mult_of": True, "leaf_validators": True, "class_validators": True, "any_in_sets": True}
-    case = draw(tdcase.td_cases(cfg, n_data=(4, 10), data_fn=data_fn))
+    if chance(draw, 0.12):
+        # unions from C13's generator (overlapping families, discriminated unions with tagged data), then made hostile
+        from props import c13
+
+        uc = draw(c13.strategy_(tier))
+        case = {"prog": uc["prog"], "opts": uc["opts"], "data": []}
+        for item in uc["data"]:
+            d = item["d"]
+            r = draw(st.integers(0, 9))
+            if r < 3:
+                d = hostile.plant(draw, d, 1)
+            elif r < 5:
+                d = _bait(draw, d)
+            case["data"].append({"d": d, "tag": "union:" + str(item.get("tag"))})
+    else:
+        case = draw(tdcase.td_cases(cfg, n_data=(4, 10), data_fn=data_fn))
     case["opts"]["coerce"] = pick(draw, [False, False, True, True, "weird", "unhashable"])
     case["opts"]["no_copy"] = draw(st.booleans())
     case["opts"]["override_constructors"] = chance(draw, 0.3)  # settings.deserialization.override_dataclass_constructors
@@ -214,6 +232,13 @@ def _evaluate(case, ctx, b, prog, opts):
         except BaseException as e:
             if isinstance(e, (KeyboardInterrupt, SystemExit, HarnessError)):
                 raise
+            tb_ = e.__traceback__
+            while tb_ is not None and tb_.tb_next is not None:
+                tb_ = tb_.tb_next
+            if tb_ is not None and tb_.tb_frame.f_code.co_filename.startswith("<vgen"):
+                # raised by the code of the generated module itself (a default factory, a converter, __post_init__): user code, exempt
+                ctx.h("outcome:exception_in_user_code(exempt)")
+                continue
             ctx.h("outcome:crash")
             sig = {"kind": "crash", "exc": type(e).__name__, "frame": innermost_frame(e)}
             if isinstance(e, TypeError) and str(e).startswith("unhashable type"):
